@@ -230,6 +230,132 @@ def TWorld.applyEv (w : TWorld) : TEv → TWorld
   | .delAttr v k => (w.delAttr v k).1
   | .next => w
 
+/-! ### the public mutating methods of `Attributes` (`_graph_containers.py:482-501`)
+
+`Attributes` is a `collections.UserDict`: only `__setitem__` (with its two type checks) and `add` are
+defined by the class; `__delitem__` is `UserDict.__delitem__` (`del self.data[key]`); `update`, `pop`,
+`popitem`, `clear`, `setdefault` are the mixin methods of `collections.abc.MutableMapping`, written in
+terms of `self[key]`, `self[key] = value`, `del self[key]` and `iter(self)`.  Each method is
+transcribed as the list of primitive writes on `self.data` it performs, in order, and whether it
+returns normally (`false` = `KeyError` / `TypeError`; writes made before the exception stay).
+Not transcribed: `|=` (`UserDict.__ior__` writes `self.data` directly, without `__setitem__`). -/
+
+/-- a write on `self.data`: `dict.__setitem__` / `dict.__delitem__` -/
+inductive APrim
+  | set (k : Nat) (a : AVal)
+  | del (k : Nat)
+deriving Repr, DecidableEq
+
+def PyDict.prim (d : PyDict) : APrim → PyDict
+  | .set k a => d.set k a
+  | .del k => (d.del k).1
+
+/-- a value of `none` stands for an object that is not an `Attr` (`__setitem__` raises `TypeError`
+    before writing) -/
+inductive AMeth
+  /-- `attrs[k] = a` (`Attributes.__setitem__`, lines 491-497) -/
+  | setitem (k : Nat) (a : Option AVal)
+  /-- `attrs.add(attr)` (lines 499-501): `self[value.name] = value` -/
+  | add (k : Nat) (a : AVal)
+  /-- `attrs.update(mapping or pairs)`: `for key in other: self[key] = other[key]` -/
+  | update (kvs : List (Nat × Option AVal))
+  /-- `del attrs[k]` -/
+  | delitem (k : Nat)
+  /-- `attrs.pop(k)` / `attrs.pop(k, default)`: `self[key]`, then `del self[key]` -/
+  | pop (k : Nat) (dflt : Bool)
+  /-- `attrs.popitem()`: `key = next(iter(self))` (the FIRST key, unlike `dict.popitem`), then
+      `del self[key]` -/
+  | popitem
+  /-- `attrs.clear()`: `popitem()` until it raises `KeyError` -/
+  | clear
+  /-- `attrs.setdefault(k, default)`: `self[key]`, on `KeyError` `self[key] = default` -/
+  | setdefault (k : Nat) (a : Option AVal)
+deriving Repr
+
+/-- `MutableMapping.update`: item by item; the first value that is not an `Attr` raises -/
+def updPrims : List (Nat × Option AVal) → List APrim × Bool
+  | [] => ([], true)
+  | (k, some a) :: r => (.set k a :: (updPrims r).1, (updPrims r).2)
+  | (_, none) :: _ => ([], false)
+
+/-- `next(iter(self))` -/
+def PyDict.firstKey (d : PyDict) : Option Nat := d.live.head?.map (·.1)
+
+/-- `MutableMapping.clear`: the `while True: self.popitem()` loop (at most `n` rounds) -/
+def clearPrims : Nat → PyDict → List APrim
+  | 0, _ => []
+  | n + 1, d =>
+    match d.firstKey with
+    | some k => .del k :: clearPrims n (d.del k).1
+    | none => []
+
+/-- the primitive writes a method call performs on the dict `d`, in order, and whether the call
+    returns normally -/
+def AMeth.prims (d : PyDict) : AMeth → List APrim × Bool
+  | .setitem k (some a) => ([.set k a], true)
+  | .setitem _ none => ([], false)
+  | .add k a => ([.set k a], true)
+  | .update kvs => updPrims kvs
+  | .delitem k => if d.has k then ([.del k], true) else ([], false)
+  | .pop k dflt => if d.has k then ([.del k], true) else ([], dflt)
+  | .popitem =>
+    match d.firstKey with
+    | some k => ([.del k], true)
+    | none => ([], false)
+  | .clear => (clearPrims d.used d, true)
+  | .setdefault k a =>
+    if d.has k then ([], true) else
+    match a with
+    | some a => ([.set k a], true)
+    | none => ([], false)
+
+/-- the dict after a method call -/
+def AMeth.run (d : PyDict) (m : AMeth) : PyDict × Bool := ((m.prims d).1.foldl PyDict.prim d, (m.prims d).2)
+
+/-- the event of a history (`TEv`) that a primitive write on the attributes of node `v` is -/
+def APrim.toEv (v : Nat) : APrim → TEv
+  | .set k a => .setAttr v k a
+  | .del k => .delAttr v k
+
+/-- a method call on `node.attributes` of node `v` -/
+def TWorld.applyMeth (w : TWorld) (v : Nat) (m : AMeth) : TWorld × Bool :=
+  (((m.prims (w.dictOf v)).1.map (APrim.toEv v)).foldl TWorld.applyEv w, (m.prims (w.dictOf v)).2)
+
+/-! #### the documented effect of the methods on the dict seen as an insertion-ordered mapping -/
+
+/-- `d[k] = a` on an insertion-ordered mapping: an existing key keeps its place -/
+def omSet (l : List (Nat × AVal)) (k : Nat) (a : AVal) : List (Nat × AVal) :=
+  if l.any (fun e => e.1 == k) then l.map (fun e => if e.1 == k then (k, a) else e) else l ++ [(k, a)]
+
+/-- `del d[k]` -/
+def omDel (l : List (Nat × AVal)) (k : Nat) : List (Nat × AVal) := l.filter (fun e => e.1 != k)
+
+def updEffect (l : List (Nat × AVal)) : List (Nat × Option AVal) → List (Nat × AVal) × Bool
+  | [] => (l, true)
+  | (k, some a) :: r => updEffect (omSet l k a) r
+  | (_, none) :: _ => (l, false)
+
+/-- what a method call does to the mapping (keys in insertion order with their values) and whether
+    it returns normally: the behaviour documented for `dict` / `MutableMapping`, except that
+    `popitem` removes the first item -/
+def AMeth.effect (l : List (Nat × AVal)) : AMeth → List (Nat × AVal) × Bool
+  | .setitem k (some a) => (omSet l k a, true)
+  | .setitem _ none => (l, false)
+  | .add k a => (omSet l k a, true)
+  | .update kvs => updEffect l kvs
+  | .delitem k => (omDel l k, l.any (fun e => e.1 == k))
+  | .pop k dflt => (omDel l k, l.any (fun e => e.1 == k) || dflt)
+  | .popitem =>
+    match l with
+    | [] => ([], false)
+    | e :: _ => (omDel l e.1, true)
+  | .clear => ([], true)
+  | .setdefault k a =>
+    if l.any (fun e => e.1 == k) then (l, true) else
+    match a with
+    | some a => (l ++ [(k, a)], true)
+    | none => (l, false)
+
 /-! ### the view of `Model/LinkedSet.lean`, the pre-order specification, decidable predicates -/
 
 def AVal.toAttr : AVal → Option Attr
@@ -253,6 +379,18 @@ def TFrame.synced (w : TWorld) (fr : TFrame) : Bool :=
   | .expand v it _ => itOk (w.dictOf v) it
   | _ => true
 
+/-! #### the frame of `Model/LinkedSet.lean` that a frame stands for (no attribute edits)
+
+`recStep` reads all attributes of a node in one go (`pending`); `tStep` reads them one by one.  A
+frame that is walking an in-step dict iterator corresponds to the coarse frame whose `pending` is
+what is left of the `GRAPHS` tuple followed by the subgraphs of the entries not yet reached. -/
+
+def TFrame.toR (w : TWorld) (d : Dir) (fr : TFrame) : RFrame :=
+  match fr.mode with
+  | .loop => ⟨fr.g, fr.c, none, []⟩
+  | .last v => ⟨fr.g, fr.c, some v, []⟩
+  | .expand v it pend => ⟨fr.g, fr.c, none, pend ++ (itRest (w.dictOf v) it).flatMap (fun e => e.2.graphsOf d)⟩
+
 /-- every frame's cursor refers to a box of its container (executable form of `TStackOK`) -/
 def TFrame.validB (w : TWorld) (fr : TFrame) : Bool := fr.c.pos < size (w.setOf fr.g)
 
@@ -265,6 +403,43 @@ def TWorld.hgt (w : TWorld) (d : Dir) (g : Nat) : Nat := hgtG (w.kids d) w.sets.
 /-- no graph is nested in itself -/
 def TWorld.acyclic (w : TWorld) (d : Dir) : Bool :=
   stableG (w.kids d) w.sets.length (List.range w.sets.length)
+
+/-! #### the nodes a complete visit yields, as a plain list (pre-order) -/
+
+/-- the nodes listed in pre-order to depth `< k` over an abstract nest (`nodes g` = the nodes of graph
+    `g` in iteration order, `sub v` = the subgraphs entered from node `v`): each node of `g`, followed
+    by the listings of the subgraphs entered from it -/
+def preord (nodes sub : Nat → List Nat) : Nat → Nat → List Nat
+  | 0, _ => []
+  | k + 1, g => (nodes g).flatMap fun v => v :: (sub v).flatMap (preord nodes sub k)
+
+/-- the nodes of graph `g` in iteration order -/
+def TWorld.nodesD (w : TWorld) (d : Dir) (g : Nat) : List Nat := rest (w.setOf g) d .notStarted
+
+/-- the subgraphs entered from node `v` -/
+def TWorld.subD (w : TWorld) (d : Dir) (v : Nat) : List Nat := if w.recurse v then w.visit d v else []
+
+/-! #### decidable tree shape of the current nest (hypothesis of `C11_trav_nodup`) -/
+
+/-- every node that is at present a member of some graph, graph by graph -/
+def TWorld.members (w : TWorld) : List Nat :=
+  (List.range w.sets.length).flatMap fun g => toList (w.setOf g)
+
+/-- every subgraph reference that a traversal can follow: the subgraphs named by the attributes of
+    the present members on which the `recursive` predicate holds, position by position -/
+def TWorld.refs (w : TWorld) (d : Dir) : List Nat := (w.members.filter w.recurse).flatMap (w.visit d)
+
+/-- **tree shape**: no graph is nested in itself, no node is a member of two graphs, no graph hangs
+    under two attribute positions (no sharing), and the root `g0` hangs under none -/
+def TWorld.treeShape (w : TWorld) (d : Dir) (g0 : Nat) : Bool :=
+  w.acyclic d && decide w.members.Nodup && decide (w.refs d).Nodup && !(w.refs d).contains g0
+
+/-- the nodes yielded in a stream of events, in order -/
+def yieldsOf (os : List Out) : List Nat :=
+  os.filterMap fun o =>
+    match o with
+    | .yield _ v => some v
+    | _ => none
 
 /-! #### what remains to be produced (executable: the driver compares it with the drain) -/
 
@@ -298,6 +473,48 @@ def tPop (rest : List TFrame) (g : Nat) : List Out := if rest.isEmpty then [] el
 def tStackSpec (V : Nat → List Out) (w : TWorld) (d : Dir) : List TFrame → List Out
   | [] => []
   | fr :: rest => tFrameSpec V w d fr ++ tPop rest fr.g ++ tStackSpec V w d rest
+
+/-! #### histories of `next()` and node-sequence edits: what a set `X` of nodes must satisfy so that
+every node outside `X` is yielded at most once (hypotheses of `C11_trav_untouched_once`) -/
+
+/-- the nodes the iterator still yields when nothing is edited any more -/
+def TWorld.fut (w : TWorld) (d : Dir) (st : List TFrame) : List Nat :=
+  yieldsOf (tStackSpec (tVisit w d (w.sets.length + 1)) w d st)
+
+/-- `X` is closed under "nested below": everything a complete visit of the subgraphs of a node of
+    `X` yields is in `X` -/
+def TWorld.closedB (w : TWorld) (d : Dir) (X : List Nat) : Bool :=
+  X.all fun v => ((w.subD d v).flatMap (preord (w.nodesD d) (w.subD d) (w.sets.length + 1))).all X.contains
+
+def TWorld.good (w : TWorld) (d : Dir) (X : List Nat) : Bool := w.acyclic d && w.closedB d X
+
+/-- admissible history for the excluded set `X`: only `next()` calls (each returning a node or
+    StopIteration within the step bound) and edits of node sequences that touch nodes of `X` only;
+    in every world passed through no graph is nested in itself and `X` is closed -/
+def tAdm (X : List Nat) (d : Dir) (fuel : Nat) : TWorld → List TFrame → List TEv → Bool
+  | w, _, [] => w.good d X
+  | w, st, .next :: es =>
+      w.good d X &&
+      (match (tNext w d fuel st).2.2 with
+       | .yield _ => true
+       | .stop => true
+       | _ => false) &&
+      tAdm X d fuel w (tNext w d fuel st).1 es
+  | w, st, .edit g op :: es =>
+      w.good d X && (touched op).all X.contains && tAdm X d fuel (w.applyAt g op).1 st es
+  | _, _, .setAttr _ _ _ :: _ => false
+  | _, _, .delAttr _ _ :: _ => false
+
+/-- run a history: final world, final stack, the nodes yielded -/
+def tRunY (d : Dir) (fuel : Nat) : TWorld → List TFrame → List TEv → TWorld × List TFrame × List Nat
+  | w, st, [] => (w, st, [])
+  | w, st, .next :: es =>
+      let r := tNext w d fuel st
+      let q := tRunY d fuel w r.1 es
+      (q.1, q.2.1, yieldsOf r.2.1 ++ q.2.2)
+  | w, st, .edit g op :: es => tRunY d fuel (w.applyAt g op).1 st es
+  | w, st, .setAttr v k a :: es => tRunY d fuel (w.setAttr v k a) st es
+  | w, st, .delAttr v k :: es => tRunY d fuel (w.delAttr v k).1 st es
 
 /-- the nodes a frame is going to yield or is expanding, at its own level -/
 def TFrame.ownNodes (w : TWorld) (d : Dir) (fr : TFrame) : List Nat :=
